@@ -1,3 +1,3 @@
 #!/bin/sh
 # debugging helper: compile the overlay for one package and print only the error blocks
-cd /verif/build/kani/repo && CARGO_NET_OFFLINE=true cargo kani -p "$1" ${2:+--features $2} --target-dir /verif/build/kani/target --only-codegen -Z stubbing -Z function-contracts 2>&1 | grep -E "^error" -A7 | grep -v "^ *|$" | head -${3:-60}
+cd /verif/build/kani/repo && CARGO_NET_OFFLINE=true cargo kani -p "$1" ${2:+--features $2} --target-dir /verif/build/kani/target --only-codegen -Z stubbing -Z function-contracts 2>&1 | grep -E "^error" -A7 | grep -v "^ *|$" | cut -c1-260 | head -${3:-60}
